@@ -195,6 +195,12 @@ def run(tier, seed):
     t0 = time.time()
     cs = cases(tier)
     st = par.pmap(work, cs, chunk=4 if tier == 'quick' else 2)
+    pairs = H.pick(list(itertools.product(ARCHS, ARCHS)), seed, 5 if tier == 'quick' else 30)
+    mcases = []
+    for i, (a, b) in enumerate(pairs):
+        makers = [(lambda a=a: MT.HEALTHY[a]('t0')), (lambda b=b: MT.HEALTHY[b]('t1'))]
+        mcases.append((makers, ['-j'] if i % 2 else [], 1 if i % 3 else 2))
+    validated = H.validate_multi_traces(mcases, st)
     return evidence.finish(
         PID, tier, seed, st, t0,
         rule='ordered pairs (quick) / pairs and triples (thorough) of %d healthy archetypes (one per channel through which a scan edits '
@@ -203,7 +209,7 @@ def run(tier, seed):
              'item-to-thread assignment)' % len(ARCHS),
         assumptions=['thread switches only at virtual I/O gates (resolve/connect/recv), see DESIGN 2.4b',
                      'reference = fresh single-target invocation in the same virtual environment'],
-        exhaustive=True, extra={'cases': len(cs), 'archetypes': ARCHS})
+        exhaustive=True, traces_validated=validated, extra={'cases': len(cs), 'archetypes': ARCHS})
 
 
 def replay(path):
